@@ -144,7 +144,7 @@ def static_check(pid, tier, kinds, cert, rule_kind, rule, sems="GR,CO,PR,ST,SST,
         if lists > 1:
             afs = [a for a in afs if a["n"] <= (4 if lists >= 3 else 6)]
         opts = dict(sems=sems, kinds=kinds, cert=cert, present=present, oracle=oracle, budget=budget, lists=lists,
-                    cap=300 if sname in ("ref3", "iso4") else 1500)       # SAT calls per query before it is declared non-terminating
+                    cap=300 if sname in ("ref3", "iso4") else 400)       # SAT calls per query before it is declared non-terminating
         if extra:
             opts.update(extra)
         segs = run_static(res, "%s_%s_%s" % (pid, sname, oracle), afs, **opts)
@@ -408,7 +408,7 @@ def c18(tier):
     nt = set()
     for name, afs, present, budget, lists in plan:
         segs = run_static(res, "C18_" + name, afs, sems="CO,PR,ST,SST,STG,ID", kinds="SE,DC,DS", cert="both", present=present,
-                          oracle="dfs", budget=budget, lists=lists, cc="yes", cap=3000)
+                          oracle="dfs", budget=budget, lists=lists, cc="yes", cap=400)
         segs = [[e for e in s if e["ev"] in ("af", "cc") or (e["ev"] == "q" and e["out"]["capped"])] for s in segs]
         t1, st = vlib.judge("TraceStatic.tla", segs, res.wd, "C18_" + name, shards=8)
         res.add_judge(name, t1, st, only_props={"C18"})
